@@ -35,6 +35,14 @@ fn promise_case<P: G>(cfg: Cfg, j: usize, tier: Tier, variant: &'static str) -> 
         if variant == "zero" {
             base.values[j] = 0;
         }
+        if variant == "twin-commitments" {
+            // the opening at position j-1 is the same as at position j (equal commitments), under ANOTHER promise: promises
+            // belong to positions, not to commitment values
+            let t = j - 1;
+            base.values[t] = base.values[j];
+            base.blindings[t] = base.blindings[j].clone();
+            base.promises[t] = Some(if base.values[j] >= 2 { base.values[j] - 1 } else { 0 });
+        }
         let vj = base.values[j];
         let mut created: Vec<Option<u64>> = vec![None, Some(0), Some(1), Some(vj.saturating_sub(1)), Some(vj)];
         created.retain(|p| norm(*p) <= vj);
@@ -410,16 +418,22 @@ fn promise_case<P: G>(cfg: Cfg, j: usize, tier: Tier, variant: &'static str) -> 
 pub fn run(rep: &mut Report) {
     rep.rule = "configuration lattice x position j x proofs created under promise in {None,0,1,v-1,v} x verification under every single \
                 substitution in {None,0,1,p-1,p+1,v,v+1,2^n-1,2^n,u64::MAX}; oracle: accepted <=> value-wise equal (None = 0), out-of-range \
-                promise => error; prover accepts v==p and refuses v<p through both entry points (values mid-range, top of the range, and 0 at the last position); a promise-bearing proof is accepted under the same promises by a verifier of another capacity whenever its promise-free twin is; over F the compared element's coefficients equal the reference's \
+                promise => error; prover accepts v==p and refuses v<p through both entry points (values mid-range, top of the range, 0 at the last position, and the last two positions holding the same commitment under different promises); a promise-bearing proof is accepted under the same promises by a verifier of another capacity whenever its promise-free twin is; over F the compared element's coefficients equal the reference's \
                 (verifier-side half) and the merlin trace carries the promise vector (transcript-side half) -- both recorded as reference-binding \
                 notes (mechanisms of C02 / C04), the verdict is the acceptance matrix; the same triples are also verified inside 2-batches, and next to themselves under a substituted promise"
         .into();
     let tier = rep.tier;
     let mut cases: Vec<Box<dyn Case>> = Vec::new();
-    for cfg in lattice(tier.thorough()) {
+    // the second (nodebug) pass repeats the exploration on the small lattice: what differs between the two builds is the
+    // prover's and verifier's guards, not the configuration
+    let lat = if crate::engine::profile_pass().is_some() && !tier.thorough() { lattice_small() } else { lattice(tier.thorough()) };
+    for cfg in lat {
         for j in positions(cfg.m, tier.thorough()) {
-            for variant in ["mid", "max", "zero"] {
+            for variant in ["mid", "max", "zero", "twin-commitments"] {
                 if variant == "zero" && j != cfg.m - 1 {
+                    continue;
+                }
+                if variant == "twin-commitments" && (j == 0 || j != cfg.m - 1) {
                     continue;
                 }
                 cases.push(promise_case::<F>(cfg, j, tier, variant));
